@@ -130,6 +130,31 @@ class C12:
             tasks = [self._gen_task(rng) for _ in range(ntask)]
             n = rng.randint(1, 30 if thorough else 14)
             ops = [self._gen_op(rng, ntask, seq=True) for _ in range(n)]
+            if rng.random() < 0.25:
+                # "sliding window" flavour: amounts that are not exactly representable (their partial
+                # sums round), next to huge ones, with pauses around the speed-estimate period so that
+                # samples are evicted while others stay -- whatever bookkeeping the estimate uses, with
+                # non-negative advances it must never come out negative
+                per = cfg["speed_estimate_period"]
+                ops = []
+                for _ in range(n):
+                    q = rng.random()
+                    ref = ["g", rng.randrange(ntask)]
+                    if q < 0.55:
+                        ops.append(["advance", ref, rng.choice([0.1, 0.3, 0.6, 1.1, 0.7, 1e-3, 0.25, 3, 0, 0, 5e15, 1e17])])
+                    elif q < 0.65:
+                        ops.append(["update", ref, {"advance": rng.choice([0.1, 0.2, 1.3, 0])}])
+                    elif q < 0.9:
+                        ops.append(["sleep", per * rng.choice([0.2, 0.6, 1.01, 1.5, 3.0])])
+                    else:
+                        ops.append(["read", ref])
+                cfg["flavour"] = "window"
+                # (the pauses are long in virtual time: keep the number of refresh cycles the
+                # refresh thread runs meanwhile small, the step cap is not a property of rich)
+                if per >= 2.0:
+                    cfg["refresh_per_second"] = 1
+                if per >= 30.0:
+                    cfg["auto_refresh"] = False
             if rng.random() < (0.04 if thorough else 0.02):
                 ops.insert(rng.randrange(len(ops) + 1), ["burst", ["g", rng.randrange(ntask)], 1100])
                 cfg["opcode"] = False
